@@ -7,6 +7,20 @@ pub mod c26;
 #[cfg(kani)]
 pub mod c27;
 #[cfg(kani)]
+pub mod c05;
+#[cfg(kani)]
+pub mod c03;
+#[cfg(kani)]
+pub mod c08;
+#[cfg(kani)]
+pub mod c09;
+#[cfg(kani)]
+pub mod c10;
+#[cfg(kani)]
+pub mod c18;
+#[cfg(kani)]
+pub mod c19;
+#[cfg(kani)]
 pub mod c20;
 #[cfg(kani)]
 pub mod c21;
